@@ -228,3 +228,62 @@ func ReplyFrames(r *hx.Reply) ([]string, error) {
 	}
 	return []string{strings.TrimSpace(string(r.Body))}, nil
 }
+
+// Reaction is everything a server emitted in reaction to one input.
+type Reaction struct {
+	Status      int
+	ContentType string
+	Header      http.Header
+	Body        []byte   // HTTP body (Streamable, legacy POST)
+	Frames      []string // JSON-RPC frames: JSON body / SSE events / new stream events / new stdout lines
+	Err         error
+}
+
+// React sends raw input (an HTTP request for HTTP transports, a line for stdio), lets the system
+// run to quiescence and collects what the server wrote.
+func (rp *RawPeer) React(method, url string, body []byte, hdr map[string]string) *Reaction {
+	before := len(rp.StreamFrames())
+	re := &Reaction{}
+	if rp.R.Fab == nil {
+		rp.R.C2S.Write(body)
+		vsched.Quiesce()
+		fr := rp.StreamFrames()
+		re.Frames = append(re.Frames, fr[before:]...)
+		return re
+	}
+	if url == "" {
+		url = rp.R.URL
+		if rp.R.Mode == "ls" {
+			url = rp.Endpoint
+		}
+	}
+	sid := rp.SID
+	r := rp.P.Do(method, url, sid, body, hdr)
+	re.Err = r.Err
+	re.Status = r.Status
+	re.Header = r.Header
+	re.Body = r.Body
+	if r.Header != nil {
+		re.ContentType = r.Header.Get("Content-Type")
+	}
+	if r.Err == nil && r.Status >= 200 && r.Status < 300 {
+		fr, _ := ReplyFrames(r)
+		re.Frames = append(re.Frames, fr...)
+	}
+	if rp.R.Mode == "ls" {
+		vsched.Quiesce()
+		fr := rp.StreamFrames()
+		if len(fr) > before {
+			re.Frames = append(re.Frames, fr[before:]...)
+		}
+	}
+	return re
+}
+
+// Send is React for a JSON-RPC message on the transport's normal path.
+func (rp *RawPeer) Send(msg string) *Reaction {
+	if rp.R.Fab == nil {
+		return rp.React("", "", []byte(msg+"\n"), nil)
+	}
+	return rp.React(http.MethodPost, "", []byte(msg), nil)
+}
